@@ -372,9 +372,10 @@ def elem_key(el, ref):
     return (e["z"], el["iso"][1] if el["iso"] else e["alias"], el["ion"][4] if el["ion"] else 0)
 
 
-def gen_group(rng, ref, depth, maxdepth, lead_ok, must_lead, pb):
-    """implicit: dict(kind='I', lead, elems) / explicit: dict(kind='E', b1, inner, b2, b3, cnt)"""
-    explicit = depth < maxdepth and rng.random() < (0.30 if depth == 0 else 0.25)
+def gen_group(rng, ref, depth, maxdepth, lead_ok, must_lead, pb, pe=None):
+    """implicit: dict(kind='I', lead, elems) / explicit: dict(kind='E', b1, inner, b2, b3, cnt);
+    `pe` overrides the probability of a parenthesised group at this level"""
+    explicit = depth < maxdepth and rng.random() < ((0.30 if depth == 0 else 0.25) if pe is None else pe)
     if must_lead and not lead_ok:
         explicit = True
     if explicit:
@@ -402,22 +403,24 @@ def gen_sep(rng, pb):
     return (blanks(rng, 0.4), True, blanks(rng, 0.4))
 
 
-def gen_composite(rng, ref, depth, maxdepth, first_lead_ok, pb):
+def gen_composite(rng, ref, depth, maxdepth, first_lead_ok, pb, n=None, pe=None):
     """[group, sep, group, …] obeying the side conditions that make the greedy reading the
-    documented one (DESIGN C01)"""
-    n = rng.choice([1, 1, 1, 2, 2, 3, 4]) if depth else rng.choice([1, 1, 2, 2, 3, 3, 4, 5])
+    documented one (DESIGN C01); `n` = number of sibling groups, `pe` = probability that a group of
+    this level is parenthesised (defaults: the usual small random values)"""
+    if n is None:
+        n = rng.choice([1, 1, 1, 2, 2, 3, 4]) if depth else rng.choice([1, 1, 2, 2, 3, 3, 4, 5])
     out = []
     prev = None
     for k in range(n):
         if k == 0:
-            g = gen_group(rng, ref, depth, maxdepth, first_lead_ok, False, pb)
+            g = gen_group(rng, ref, depth, maxdepth, first_lead_ok, False, pb, pe)
         else:
             sep = gen_sep(rng, pb)
             empty = sep == ("", False, "")
             plus = sep[1]
             lead_ok = (not empty) and not (not plus and prev["kind"] == "E" and prev["cnt"] is None)
             must_lead = (not plus) and prev["kind"] == "I"
-            g = gen_group(rng, ref, depth, maxdepth, lead_ok, must_lead, pb)
+            g = gen_group(rng, ref, depth, maxdepth, lead_ok, must_lead, pb, pe)
             out.append(sep)
         out.append(g)
         prev = g
@@ -433,6 +436,16 @@ def gen_compound(rng, ref, maxdepth=4, pb=0.08):
         tag = rng.choice([None, None, "n", "i"])
         dens = (blanks(rng, 0.2), c, blanks(rng, 0.15) if tag else "", tag)
     return dict(lead=lead_blanks, comp=comp, dens=dens, trail=blanks(rng, 0.08))
+
+
+def gen_long_compound(rng, ref, n, pe=0.8, inner_depth=1, pb=0.0):
+    """a long but shallow derivation: `n` sibling groups at the top level, most of them parenthesised,
+    nothing nested deeper than `inner_depth` parentheses (a polymer written out unit by unit)"""
+    comp = gen_composite(rng, ref, 0, inner_depth, True, pb, n=n, pe=pe)
+    dens = None
+    if rng.random() < 0.3:
+        dens = ("", _ensure_positive(gen_cnt(rng, 0.0)), "", rng.choice([None, "n", "i"]))
+    return dict(lead="", comp=comp, dens=dens, trail="")
 
 
 # rendering: a list of (text, tag, node) tokens, so that a malformation can address one token
@@ -712,6 +725,48 @@ BAD_ION = ["{2}", "{+2}", "{}", "{0+}", "{++}", "{2 +}", "{+-}", "{2+2}", "{x}",
 BAD_DENS = ["@", "@@1", "@x", "@-1", "@1.5x", "@1 2", "@ 1", "@1e3", "@1nn", "@n", "@1in", "@1@2", "@01", "@1,5", "@ n"]
 MALFORMATIONS = ["unknown-symbol", "undefined-isotope", "undefined-charge", "unbalanced-bracket",
                  "malformed-count", "malformed-isotope", "malformed-ion", "malformed-density"]
+
+
+# decimal digits that are not ASCII 0-9 (number :: [1-9][0-9]*, fraction :: … '.' [0-9]*): zero of each
+# script; the last two rows are not even decimal digits for Python (superscripts, subscripts)
+DIGIT_ZEROS = [0x0660, 0x06F0, 0x0966, 0x09E6, 0x0E50, 0xFF10, 0x1D7CE, 0x1D7EC, 0x0BE6, 0x0ED0]
+ODD_DIGITS = {"0": "\u2070\u2080", "1": "\u00b9\u2081", "2": "\u00b2\u2082", "3": "\u00b3\u2083", "4": "\u2074\u2084",
+              "5": "\u2075\u2085", "6": "\u2076\u2086", "7": "\u2077\u2087", "8": "\u2078\u2088", "9": "\u2079\u2089"}
+DIGIT_TAG_KINDS = {"cnt": "malformed-count", "lead": "malformed-count", "isonum": "malformed-isotope",
+                   "ionval": "malformed-ion", "dens": "malformed-density"}
+
+
+def foreign_digit(rng, ch):
+    """the digit `ch` written in another script"""
+    if rng.random() < 0.12:
+        return rng.choice(ODD_DIGITS[ch])
+    return chr(rng.choice(DIGIT_ZEROS) + int(ch))
+
+
+def malform_digits(rng, d):
+    """one number token of derivation `d` (count, leading count, isotope number, ion magnitude, density)
+    with one or all of its digits written in a non-ASCII script: (string, kind) or None when the
+    derivation has no digit.  Such a token is not a number of the grammar, whatever the position."""
+    toks = [list(t) for t in render_compound(d)]
+    cand = [i for i, t in enumerate(toks) if t[1] in DIGIT_TAG_KINDS and any(c in "0123456789" for c in t[0])]
+    if not cand:
+        return None
+    i = rng.choice(cand)
+    text = toks[i][0]
+    pos = [j for j, c in enumerate(text) if c in "0123456789"]
+    r = rng.random()
+    if r < 0.2:
+        chosen = pos                                   # the whole number
+    elif r < 0.8 and len(pos) > 1:
+        chosen = [rng.choice(pos[1:])]                 # not the leading digit
+    else:
+        chosen = [rng.choice(pos)]
+    zero = rng.choice(DIGIT_ZEROS)
+    out = list(text)
+    for j in chosen:
+        out[j] = chr(zero + int(text[j])) if len(chosen) > 1 else foreign_digit(rng, text[j])
+    toks[i][0] = "".join(out)
+    return "".join(t[0] for t in toks), DIGIT_TAG_KINDS[toks[i][1]]
 
 
 def malform(rng, d, ref, kind):
